@@ -210,7 +210,7 @@ def render_cfg(cfgd, style, backed):
         buf = FastEncodingBuffer()
         ctx = Context(buf, g=g, av=av, sw=cfgd["sw"])
         signal.signal(signal.SIGALRM, _on_alarm)
-        signal.setitimer(signal.ITIMER_REAL, 10.0)
+        signal.setitimer(signal.ITIMER_REAL, core.tscale(10))
         try:
             tmpl = (flk if backed else lk).get_template(uris[cfgd["N"]][0])
             tmpl.render_context(ctx)
@@ -243,7 +243,7 @@ def _compile_shape(args):
         text = shape_text(shape, layout)
         try:
             signal.signal(signal.SIGALRM, _on_alarm)
-            signal.setitimer(signal.ITIMER_REAL, 10.0)
+            signal.setitimer(signal.ITIMER_REAL, core.tscale(10))
             try:
                 Template(text)
             finally:
@@ -443,7 +443,7 @@ def check(run):
     with ctxmp.Pool(nproc, initializer=_worker_init, initargs=(scratch,)) as pool:
         async_res = pool.map_async(_render_batch, [(c, run.seed) for c in chunks])
         try:
-            batches = async_res.get(timeout=900 if thorough else 200)
+            batches = async_res.get(timeout=core.tscale(900 if thorough else 200))
         except multiprocessing.TimeoutError:
             pool.terminate()
             raise MachineryError("replay workers timed out")
@@ -481,7 +481,7 @@ def check(run):
         sidx = list(enumerate((s["shape"], s["layout"]) for s in shapes))
         schunks = [sidx[k::nproc * 2] for k in range(nproc * 2)]
         try:
-            cbatches = pool.map_async(_compile_shape, [c for c in schunks if c]).get(timeout=300)
+            cbatches = pool.map_async(_compile_shape, [c for c in schunks if c]).get(timeout=core.tscale(300))
         except multiprocessing.TimeoutError:
             pool.terminate()
             raise MachineryError("compile workers timed out")
